@@ -76,15 +76,21 @@ class Timeline:
 
     def __init__(self, tempo):
         self.segs = [(F(0), F(0), F(tempo))]     # (secs, beats, tempo)
+        self.ns = [-1]                           # record number of the change
 
-    def change(self, secs, tempo):
+    def change(self, secs, tempo, n):
         s0, b0, t0 = self.segs[-1]
         secs = F(secs)
         self.segs.append((secs, b0 + (secs - s0) * t0, F(tempo)))
+        self.ns.append(n)
 
-    def beats(self, secs):
+    def beats(self, secs, n):
+        """Beats at `secs` under the map in effect when record n was
+        written (a change is anchored at the logical time of the task that
+        made it, which may lie before the physical instant of a call that
+        nevertheless preceded it)."""
         secs = F(secs)
-        seg = [s for s in self.segs if s[0] <= secs] or self.segs[:1]
+        seg = [s for s, k in zip(self.segs, self.ns) if k < n]
         s0, b0, t0 = seg[-1]
         return b0 + (secs - s0) * t0
 
@@ -104,7 +110,7 @@ def evaluate(case, out, v):
         if h['ev'] == 'tempo':
             # tempo changes are made by tasks running on that clock: the
             # change happens at the task's logical time
-            tl[h['clock']].change(h['L'], h['tempo'])
+            tl[h['clock']].change(h['L'], h['tempo'], h['n'])
     invs = {}
     for h in hist:
         if h['ev'] == 'inv':
@@ -138,7 +144,7 @@ def evaluate(case, out, v):
         # scheduled time in clock units and in seconds
         if isinstance(clock, int):
             if h['ev'] == 'sched':
-                key = tl[clock].beats(base) + F(h['delta'])
+                key = tl[clock].beats(base, h['n']) + F(h['delta'])
             else:
                 key = F(h['when'])
             to_secs = tl[clock].secs
